@@ -11,6 +11,13 @@ import (
 	"gvh/fedlab"
 )
 
+func btoi(b bool) int {
+	if b {
+		return 1
+	}
+	return 0
+}
+
 func mix(seed uint64, xs ...uint64) uint64 {
 	h := seed*0x9e3779b97f4a7c15 + 0x7654321
 	for _, x := range xs {
@@ -23,19 +30,58 @@ func mix(seed uint64, xs ...uint64) uint64 {
 
 type stats struct {
 	cfgs, fixes, ops, skipped, runs, labErrors int
+	nestedCfgs, nestedFields                   int
 	skipReasons                                map[string]int
 	exhaustive, sampled                        int
 	domainHist                                 map[int]int
 }
 
 type genCtx struct {
-	exec    *fedlab.ExecServer
-	out     *common.Out
-	maxd    int
-	st      *stats
-	verbose bool
-	only    map[string]string // replay filter: mode / d
-	onlyOp  int
+	exec     *fedlab.ExecServer
+	out      *common.Out
+	maxd     int
+	st       *stats
+	verbose  bool
+	only     map[string]string // replay filter: mode / d / hooks
+	onlyOp   int
+	fixture  bool // the hand-written stream: every run also under the loader's other pre-fetch hooks
+	hookHist map[string]int
+}
+
+// hooksFor: the loader's other pre-fetch hooks (rate limiting, tracing) under which (operation oi, decision di, mode)
+// runs.  Hand-written stream: always without, and -- when something is denied -- pre-fetch mode under an allowing
+// limiter plus one of (rejecting limiter | tracing | allowing limiter + tracing), legacy mode under one of (allowing
+// limiter | tracing | both).  Generated stream: ONE run per (decision, mode): 5/10 without, 2/10 allowing limiter,
+// 1/10 each allowing limiter + tracing, tracing, rejecting limiter (pre-fetch mode; legacy mode: allowing limiter).
+func (g *genCtx) hooksFor(seed uint64, oi, di int, mode c14lab.Mode, d c14lab.Decisions) []c14lab.Hooks {
+	if g.only != nil {
+		return []c14lab.Hooks{c14lab.ParseHooks(g.only["hooks"])}
+	}
+	h := mix(seed, 4242, uint64(oi), uint64(di), uint64(mode))
+	if g.fixture {
+		out := []c14lab.Hooks{{}}
+		if len(d) == 0 {
+			return out
+		}
+		if mode == c14lab.Pre {
+			return append(out, c14lab.Hooks{RateLimit: 1}, []c14lab.Hooks{{RateLimit: 2}, {Trace: true}, {RateLimit: 1, Trace: true}}[h%3])
+		}
+		return append(out, []c14lab.Hooks{{RateLimit: 1}, {Trace: true}, {RateLimit: 1, Trace: true}}[h%3])
+	}
+	switch k := h % 10; {
+	case k < 5:
+		return []c14lab.Hooks{{}}
+	case k < 7:
+		return []c14lab.Hooks{{RateLimit: 1}}
+	case k == 7:
+		return []c14lab.Hooks{{RateLimit: 1, Trace: true}}
+	case k == 8:
+		return []c14lab.Hooks{{Trace: true}}
+	}
+	if mode == c14lab.Pre {
+		return []c14lab.Hooks{{RateLimit: 2}}
+	}
+	return []c14lab.Hooks{{RateLimit: 1}}
 }
 
 // decisionsFor enumerates the decision functions over the domain: all of them when the domain
@@ -117,7 +163,7 @@ func (g *genCtx) runOpsIdx(fx *c14lab.Fix, idPrefix string, ops []*c14lab.Op, id
 			g.st.sampled++
 		}
 		g.st.domainHist[len(c.Domain)]++
-		for _, d := range ds {
+		for di, d := range ds {
 			if g.only != nil && g.only["d"] != "" && g.only["d"] != d.String() && !(g.only["d"] == "-" && d.String() == "") {
 				continue
 			}
@@ -125,9 +171,12 @@ func (g *genCtx) runOpsIdx(fx *c14lab.Fix, idPrefix string, ops []*c14lab.Op, id
 				if g.only != nil && g.only["mode"] != "" && g.only["mode"] != mode.String() {
 					continue
 				}
-				line, _ := c.RunLine(mode, d)
-				g.out.Line(line)
-				g.st.runs++
+				for _, h := range g.hooksFor(seed, oi, di, mode, d) {
+					line, _ := c.RunLineHooks(mode, d, h)
+					g.out.Line(line)
+					g.st.runs++
+					g.hookHist[h.String()]++
+				}
 			}
 		}
 	}
@@ -221,9 +270,9 @@ func cmdGen(a map[string]string) {
 	defer exec.Close()
 	out := common.NewOut(a["out"])
 	defer out.Close()
-	g := &genCtx{exec: exec, out: out, maxd: common.ArgInt(a, "maxd", 200), st: &stats{skipReasons: map[string]int{}, domainHist: map[int]int{}}, onlyOp: common.ArgInt(a, "op", -1)}
-	if a["mode"] != "" || a["d"] != "" {
-		g.only = map[string]string{"mode": a["mode"], "d": a["d"]}
+	g := &genCtx{exec: exec, out: out, maxd: common.ArgInt(a, "maxd", 200), st: &stats{skipReasons: map[string]int{}, domainHist: map[int]int{}}, onlyOp: common.ArgInt(a, "op", -1), hookHist: map[string]int{}}
+	if a["mode"] != "" || a["d"] != "" || a["hooks"] != "" {
+		g.only = map[string]string{"mode": a["mode"], "d": a["d"], "hooks": a["hooks"]}
 	}
 	onlyP := common.ArgInt(a, "p", -1)
 	for ci := from; ci < from+n; ci++ {
@@ -233,6 +282,13 @@ func cmdGen(a map[string]string) {
 		var ops []*c14lab.Op
 		for oi := 0; oi < fedlab.OpsPerConfig; oi++ {
 			ops = append(ops, &c14lab.Op{Kind: "query", Operation: fedlab.BuildOperation(seed, ci*fedlab.OpsPerConfig+oi, k, cfg, uni)})
+		}
+		// every fourth configuration: up to three list-valued composite fields become lists of lists
+		var nested []string
+		if ci%4 == 1 {
+			nested = c14lab.NestLists(cfg, uni, common.NewRand(mix(seed, uint64(ci), 77)), 3)
+			g.st.nestedCfgs += btoi(len(nested) > 0)
+			g.st.nestedFields += len(nested)
 		}
 		reached, err := reachedCoords(exec, cfg, uni, ops)
 		if err != nil {
@@ -277,8 +333,13 @@ func (g *genCtx) summary() {
 		sr = append(sr, fmt.Sprintf("%s=%d", k, v))
 	}
 	sort.Strings(sr)
-	fmt.Printf("c14: cfgs=%d fixes=%d ops=%d skipped=%d (%s) runs=%d exhaustive=%d sampled=%d domain_hist=%s laberrors=%d execcalls=%d\n",
-		g.st.cfgs, g.st.fixes, g.st.ops, g.st.skipped, strings.Join(sr, ","), g.st.runs, g.st.exhaustive, g.st.sampled, strings.Join(dh, " "), g.st.labErrors, g.exec.Calls)
+	var hh []string
+	for k, v := range g.hookHist {
+		hh = append(hh, fmt.Sprintf("%s=%d", k, v))
+	}
+	sort.Strings(hh)
+	fmt.Printf("c14: cfgs=%d fixes=%d ops=%d skipped=%d (%s) runs=%d exhaustive=%d sampled=%d domain_hist=%s hooks=%s nested_list_cfgs=%d nested_list_fields=%d laberrors=%d execcalls=%d\n",
+		g.st.cfgs, g.st.fixes, g.st.ops, g.st.skipped, strings.Join(sr, ","), g.st.runs, g.st.exhaustive, g.st.sampled, strings.Join(dh, " "), strings.Join(hh, ","), g.st.nestedCfgs, g.st.nestedFields, g.st.labErrors, g.exec.Calls)
 }
 
 // fixture -out FILE [-name iface|mut] : the hand-written configurations with their operation lists
@@ -292,9 +353,9 @@ func cmdFixture(a map[string]string) {
 	defer exec.Close()
 	out := common.NewOut(a["out"])
 	defer out.Close()
-	g := &genCtx{exec: exec, out: out, maxd: common.ArgInt(a, "maxd", 200), st: &stats{skipReasons: map[string]int{}, domainHist: map[int]int{}}, onlyOp: common.ArgInt(a, "op", -1)}
-	if a["mode"] != "" || a["d"] != "" {
-		g.only = map[string]string{"mode": a["mode"], "d": a["d"]}
+	g := &genCtx{exec: exec, out: out, maxd: common.ArgInt(a, "maxd", 200), st: &stats{skipReasons: map[string]int{}, domainHist: map[int]int{}}, onlyOp: common.ArgInt(a, "op", -1), hookHist: map[string]int{}, fixture: true}
+	if a["mode"] != "" || a["d"] != "" || a["hooks"] != "" {
+		g.only = map[string]string{"mode": a["mode"], "d": a["d"], "hooks": a["hooks"]}
 	}
 	onlyP := common.ArgInt(a, "p", -1)
 	for _, f := range c14lab.Fixtures() {
